@@ -14,7 +14,7 @@ class C04(Property):
                          "record_lines_accepted_editor", "record_lines_accepted_difficulty", "record_lines_accepted_general",
                          "record_lines_accepted_events", "lines_dispatched", "record_blocks_accepted_and_recovered",
                          "hitobject_lines_accepted_partial",
-                         "timing_block_lines", "timing_block_shape", "timing_lines_accepted", "record_and_timing_blocks_accepted",
+                         "timing_block_lines", "decoded_control_points_in_limits", "timing_block_shape", "timing_lines_accepted", "record_and_timing_blocks_accepted",
                          "sample_timing_rep", "sample_records_rep", "sample_timing_text", "sample_encodes"]
     partial_theorems = {
         "record_lines_accepted_editor / _difficulty / _general / _events, record_blocks_accepted_and_recovered":
@@ -30,8 +30,9 @@ class C04(Property):
             "a collected object sample and a suppressed redundant group) and stated for maps satisfying the explicit predicate RtTiming.RepTimingMap: every control-point time and every "
             "timing point's beat length representable by the codec, within the decoder's limit ±(2^31−1) and not NaN; every slider velocity (scroll speed in taiko/mania) v and the default 1 "
             "with −100/v representable and within the beat-length limits; signature numerators in 1..2^31−1; custom banks ≤ 2^31−1. For a DECODED map the clauses about its own control "
-            "points hold by construction (parsed with these limits, clamped, NaN timing changes rejected) once the codec represents those finite values — that implication is not a theorem "
-            "here. The clause a decoded map can violate is the one about sample points AFTER collect_samples: they sit at computed times (start+duration of spinners/holds/sliders, node "
+            "points hold by construction: decoded_control_points_in_limits proves (no law, so also of the IEEE instance) that every decoded map's control points are strictly sorted, with "
+            "times within the limit and not NaN, numerators in 1..2^31−1 and custom banks within ±(2^31−1); C12.clamps gives the clamp ranges of beat lengths and velocities under the clamp "
+            "laws; that the codec represents those finite values, and that −100/v stays within the beat-length limits for v in the clamp range, are not theorems here. The clause a decoded map can violate is the one about sample points AFTER collect_samples: they sit at computed times (start+duration of spinners/holds/sliders, node "
             "times from slider_events) which may be non-finite or beyond the limit; then the line is rejected. Not assumed away: the implementation-level `lines` oracle checks every "
             "line of every encoding. timing_block_lines (shape and provenance of every line) needs no law",
         "line acceptance for slider lines (hitobject_lines_accepted, same_record_kind for sliders)":
